@@ -67,6 +67,8 @@ InitCases ==
   \/ \E dm \in DepthMaps(2) : cs = [op |-> "s_rehierarch", s |-> HSer2, dm |-> dm]
   \/ \E dm \in DepthMaps(3) : cs = [op |-> "s_rehierarch", s |-> HSer3, dm |-> dm]
   \/ \E ax \in {0, 1}, x \in {<<"s", "X">>} : cs = [op |-> "f_level_add", f |-> HF, axis |-> ax, v |-> x]
+  \/ \E h \in {HSer2, HSer3}, d \in 0..2 : cs = [op |-> "s_label_widths", s |-> h, n |-> d]
+  \/ \E h \in {HSer2, HSer3}, ds \in {<<0>>, <<1>>, <<2>>, <<0, 1>>, <<1, 0>>, <<2, 0>>} : cs = [op |-> "s_iter_label", s |-> h, ds |-> ds]
   \/ \E h \in {HSer2, HSer3} : cs = [op |-> "s_relabel_flat", s |-> h]
   \/ \E ax \in {0, 1} : cs = [op |-> "f_relabel_flat", f |-> HF, axis |-> ax]
   \/ \E n \in 1..2 : cs = [op |-> "f_level_drop", f |-> HF, axis |-> 0, n |-> n]
@@ -156,6 +158,12 @@ SearchSortedBrackets ==
 SearchSortedPointwise ==
   (Done /\ cs.op = "s_searchsorted" /\ cs.many /\ res.k = "array") =>
      \A i \in 1..Len(cs.q) : Elem(res.vals[i]) = SeriesSearchSorted(cs.s, cs.on, <<cs.q[i]>>, FALSE, cs.left, cs.loc, cs.v)
+(* the widths at any depth account for every row exactly once, and consecutive nodes differ in their path *)
+LabelWidthsCoverRows ==
+  (Done /\ cs.op = "s_label_widths" /\ res.k = "array") =>
+     /\ SumSeq([k \in 1..Len(res.vals) |-> res.vals[k][2][2][2]]) = Len(cs.s.index)
+     /\ \A k \in 1..Len(res.vals) : res.vals[k][2][2][2] >= 1
+     /\ (cs.n = HDepth(cs.s.index) - 1) => \A k \in 1..Len(res.vals) : res.vals[k][2][2][2] = 1          \* leaves
 (* negative control: a roll that also reorders within the columns would not be invertible (never holds) *)
 NegRollIsIdentity == (Done /\ cs.op = "f_roll" /\ res.k = "frame") => res.cols = cs.f.cols
 =============================================================================
